@@ -439,10 +439,6 @@ class _Scan:
         if a.get('shape') is not None and got_ids and dims is not None and tuple(a['shape']) != dims:
             self.bad('shape-vs-ids', 'attribute shape is %r, the ids datasets hold %d observation and '
                      '%d sample ids' % (tuple(a['shape']), dims[0], dims[1]))
-        for axis in AXES:
-            ids = self.out[axis].get('ids')
-            if ids and len(set(ids)) != len(ids):
-                self.bad('ids-duplicate', '%s/ids repeats an id' % axis)
         do, ds = self.out['observation'].get('dense'), self.out['sample'].get('dense')
         if do is not None and ds is not None:
             if do.shape != ds.shape or not np.array_equal(_bits(do), _bits(ds)):
